@@ -139,3 +139,12 @@ package encoder
 //@   ensures r1 != nil ==> r0 == nil
 //@   ensures (r1 == nil) == encOK(val, opts)
 //@   ensures sync.poolWF()
+
+// EncodeIndented (MarshalIndent; C06): the result is never pool-owned: either a new copy
+// (then the indentation buffer goes back to the pool) or the indentation buffer's own
+// array, handed over and NOT returned to the pool; the encode buffer is always released.
+//@ func EncodeIndented props C06
+//@   requires sync.poolWF() && option.DefaultEncoderBufferSize <= 1099511627776
+//@   modifies $pooled, $bufarr
+//@   ensures r1 == nil ==> !$pooled[base(r0)]
+//@   ensures r1 != nil ==> r0 == nil
